@@ -30,8 +30,8 @@ func init() {
 			"distinct = (job kinds and seeds) / (scripts); non-trivial = at least two jobs or clients really ran in parallel. The oracle shares nothing between goroutines but the work queue and per-index result slots.",
 		Run: func(t *T) {
 			library(t)
-			soak(t)
 			httpPart(t)
+			soak(t) // last: it lowers GOMAXPROCS for its duration
 		},
 	})
 }
